@@ -244,8 +244,9 @@ CODES = {1: "the call panicked, crashed the process or did not return",
          4: "the result map differs (keys, or the value bound to a key)",
          5: "the specification predicts a crash (cannot happen)",
          6: "a rule was still running, or started, after the call had returned",
+         8: "the caller's stop tag after the call is not what its value before the call and the rules that ran make it (the engine wrote to it)",
          7: "the variant with a stop tag that is never set and the variant without a tag differ on the same rule set (the failing rules named by the returned error, the error flag or the result map)"}
-SYMPTOM = {1: "crash", 2: "trace", 3: "error-flag", 4: "result-map", 5: "spec", 6: "after-return", 7: "twin"}
+SYMPTOM = {1: "crash", 2: "trace", 3: "error-flag", 4: "result-map", 5: "spec", 6: "after-return", 7: "twin", 8: "tag-after"}
 
 
 def err_rule_names(o):
@@ -361,6 +362,13 @@ def campaign(run, pid, cases, entries, design_rule, extra_obligations=()):
             if not (o1.get("crash") or o2.get("crash")) and (err_rule_names(o1) != err_rule_names(o2) or bool(o1["err"]) != bool(o2["err"]) or o1["result"] != o2["result"]):
                 o1["twin_observation"] = {k: o2.get(k) for k in ("err", "errmsg", "result")}
                 spec_bad.append((c["id"], 7))
+        o_ = byid[c["id"]]
+        if "StopTag" in c["entry"] and not o_.get("crash") and not o_.get("panic") and "tag_after" in o_:
+            # the caller's tag belongs to the rules: after the call it is set iff it was set before or a rule that sets it ran
+            ended = {e[1] for e in o_.get("events", []) if e[0] == "E"}
+            started = {e[1] for e in o_.get("events", []) if e[0] == "S"}
+            if started == ended and bool(o_["tag_after"]) != (bool(c.get("stop0")) or any(r["stop"] and r["name"] in ended for r in c["rules"])):
+                spec_bad.append((c["id"], 8))
         op = order_problem(c, byid[c["id"]])
         if op:
             byid[c["id"]]["order_problem"] = op
